@@ -43,7 +43,7 @@ MUTATORS = ["set_form", "set_frame", "set_coord", "set_meta", "mutate_meta", "ap
 MAKERS = ["copy", "copy_form", "copy_frame", "copy_both", "copy_same", "pickle", "as_orbit", "as_statevector",
           "cov_copy", "clone", "late_frame", "read_infos"]
 COV_FRAMES = FRAMES + ["QSW", "TNW", "QSW", "TNW"]
-FAILING = ["bad_form", "bad_frame", "hill", "wrong_param", "late_fail"]
+FAILING = ["bad_form", "bad_frame", "hill", "wrong_param", "late_fail", "bodyless"]
 # frames registered by vf/props/c15.py whose use fails LATE: axes known, origin not (a tabulated chief whose table
 # ends in 1990; an orbit without propagator) - and one that fails early (local axes need the reference too)
 LATE_TARGETS = ["VF15chief", "VF15chief", "VF15mute", "VF15chiefQ"]
@@ -161,6 +161,11 @@ def _op(d, kind):
         op["via"] = d.pick("set", "copy")
     if kind == "late_fail":
         op.update(target=d.pick(*LATE_TARGETS), via=d.pick("set", "set", "copy"))
+    if kind == "bodyless":
+        # a form that needs mu asked of a state held about a point that is no body (VF15nobody, as the library's own
+        # Lagrange-point frames): from a geometric form the route has a first leg that succeeds before the refusal
+        op.update(geo=d.pick("spherical", "cylindrical", "spherical", "cylindrical", "cartesian"), target=d.pick(*MU_FORMS),
+                  via=d.pick("set", "set", "copy"))
     if kind == "wrong_param":
         op.update(k=d.int(0, 40), how=d.pick("get_attr", "get_item", "set_attr", "set_item"))
     return op
